@@ -1039,6 +1039,20 @@ func (x *Unit) modsOf(nodes ...ast.Node) *modSet {
 				}
 			}
 			ms.comps["alloc"] = true
+		case *ast.UnaryExpr:
+			if n.Op == token.AND {
+				if id, ok := ast.Unparen(n.X).(*ast.Ident); ok {
+					if v, ok := x.info.ObjectOf(id).(*types.Var); ok {
+						if su, ok := v.Type().Underlying().(*types.Struct); ok && x.U.SortOf(v.Type()).Kind == KStruct {
+							for j := 0; j < su.NumFields(); j++ {
+								comp, _, _ := x.fieldComp(v.Type(), su.Field(j).Name())
+								ms.comps[comp] = true
+							}
+							ms.comps["alloc"] = true
+						}
+					}
+				}
+			}
 		case *ast.FuncLit:
 			ms.comps["alloc"] = true
 		case *ast.CallExpr:
